@@ -11,7 +11,7 @@ from symx.runner import Ob, run_property
 from crosshair.util import IgnoreAttempt
 
 
-def _install_clock(sym, symbolic_clock):
+def _install_clock(sym, symbolic_clock, controlled=False):
     import datetime as _dt
     import syne_tune.backend.simulator_backend.time_keeper as TK
     import syne_tune.backend.simulator_backend.simulator_backend as SB
@@ -36,6 +36,8 @@ def _install_clock(sym, symbolic_clock):
             self.n = 0
 
         def time(self):
+            if controlled:
+                return self.now         # real time passes only where the harness says so (h_outside_time)
             self.n += 1
             self.now = self.now + (sym.real("dt%d" % self.n, 0, 5) if symbolic_clock else 0.25)
             return self.now
@@ -159,6 +161,82 @@ def h_pause_resume(sym, F=3, ckpt=True, symbolic_clock=False, symbolic_sleep=Fal
     sym.goal("end")
 
 
+def h_outside_time(sym, F=2):
+    """'time spent waiting is charged once': the real clock is under the harness' control and moves by a symbolic amount
+    between ANY two backend calls of one tuning-loop round (fetch_status_results, busy_trial_ids, start_trial, pause_trial,
+    resume_trial, stop_trial -- the order Tuner.run uses); after every call that may charge, the simulated clock equals
+    the sum of all real time that passed so far + all sleeps + the documented stop / pause delays."""
+    from syne_tune.blackbox_repository.simulated_tabular_backend import UserBlackboxBackend
+    from syne_tune.backend.simulator_backend.simulator_backend import SimulatorConfig
+    from syne_tune.constants import ST_TUNER_TIME
+    ft = _install_clock(sym, False, controlled=True)
+    bb = _blackbox(sym, F, ncfg=2, concrete_from=0)
+    for c in (0, 1):
+        bb.tab[c] = [[float(10 * c + f), 10.0 * (f + 1)] for f in range(F)]    # with sleeps of 12 s and gaps <= 1/4 s every event is due or not due regardless of the gaps
+    d_stop, d_cas, d_start, d_res = 0.25, 0.5, 0.125, 0.0625
+    be = UserBlackboxBackend(blackbox=bb, elapsed_time_attr="et", max_resource_attr="epochs", support_checkpointing=True,
+                             simulator_config=SimulatorConfig(delay_on_trial_result=d_res, delay_complete_after_final_report=1.0,
+                                                              delay_complete_after_stop=d_cas, delay_start=d_start, delay_stop=d_stop))
+    be.set_path(results_root=os.environ["SYNETUNE_FOLDER"], tuner_name="c10c")
+    tk = be.time_keeper
+    tk.start_of_time()
+    exp = [0]
+    n = [0]
+
+    def outside():
+        n[0] += 1
+        d = sym.real("real%d" % n[0], 0, 0.25)
+        ft.now = ft.now + d
+        exp[0] = exp[0] + d
+
+    def charged(where):
+        sym.check(tk.time() == exp[0], "C10.outside-time-not-charged-once",
+                  "after %s the simulated clock differs from (real time spent outside the backend + sleeps + stop delays)" % where)
+
+    def sleep(dt):
+        tk.advance(dt)
+        exp[0] = exp[0] + dt
+
+    stamps = {}
+    outside()
+    be.busy_trial_ids()
+    outside()
+    be.start_trial({"c": 0, "epochs": F})
+    charged("start_trial(0)")
+    stamps[0] = exp[0]
+    for rnd in range(2):
+        sleep(12.0)
+        outside()
+        st, res = be.fetch_status_results([0] if rnd == 0 else [0, 1])
+        charged("fetch_status_results")
+        for tid, r in res:
+            lv = r["epoch"]
+            sym.check(r[ST_TUNER_TIME] == stamps[tid] + d_start + bb.tab[tid][lv - 1][1] + d_res, "C10.time-stamp",
+                      "trial %d level %d: stamp differs from (clock at start_trial) + delay_start + elapsed + delay_on_trial_result" % (tid, lv))
+            sym.goal("result")
+        outside()           # e.g. scheduler.on_trial_result
+        be.busy_trial_ids()
+        outside()           # e.g. scheduler.suggest
+        if rnd == 0:
+            be.start_trial({"c": 1, "epochs": F})
+            charged("start_trial(1)")
+            stamps[1] = exp[0]
+    outside()
+    be.pause_trial(1, result=None)
+    exp[0] = exp[0] + d_stop + 0.001 + d_cas + 0.001
+    charged("pause_trial")
+    outside()
+    be.busy_trial_ids()
+    outside()
+    be.resume_trial(1, new_config={"c": 1, "epochs": F})
+    charged("resume_trial")
+    outside()
+    be.stop_trial(0, result=None)
+    exp[0] = exp[0] + d_stop + 0.001 + d_cas + 0.001
+    charged("stop_trial")
+    sym.goal("end")
+
+
 def h_two_trials(sym, F=2, stop_first=True):
     """two trials on two workers: every delivered result carries its own trial's table row; stopping one trial does not
     disturb the other; results arrive ordered by simulated time stamp"""
@@ -202,12 +280,78 @@ def h_two_trials(sym, F=2, stop_first=True):
     sym.goal("end")
 
 
+def h_three_trials(sym, F=3, prop="C10", sym_trials=(1, 2)):
+    """three trials on three workers, two of them with SYMBOLIC elapsed-time columns (every interleaving of their events in
+    the simulator's event heap); the third is stopped after its first result while events of all three are queued.  One
+    poll after a long sleep must then deliver, for each remaining trial, all F levels exactly once and in order, each with
+    its own table row, and the trial's time stamps must not decrease."""
+    from syne_tune.blackbox_repository.simulated_tabular_backend import UserBlackboxBackend
+    from syne_tune.backend.simulator_backend.simulator_backend import SimulatorConfig
+    from syne_tune.constants import ST_TUNER_TIME
+    _install_clock(sym, False, controlled=True)
+    bb = _blackbox(sym, F, ncfg=3, concrete_from=0)
+    for c in (1, 2):
+        t = 0
+        rows = []
+        for f in range(F):
+            t = t + (sym.real("et_%d_%d" % (c, f), 0.5, 6) if c in sym_trials else (4.0, 5.0, 3.0)[f % 3])
+            rows.append([float(10 * c + f), t])
+        bb.tab[c] = rows
+    bb.tab[0] = [[float(f), 1.0 + f] for f in range(F)]
+    # cut the tree into independent sub-trees along the relative order of the two symbolic trials' events
+    for f in range(F):
+        sym.split_on("s%d" % f, bb.tab[1][f][1] < bb.tab[2][f][1])
+    sym.split_on("s%d" % F, bb.tab[1][0][1] < 2.0)
+    sym.split_on("s%d" % (F + 1), bb.tab[2][0][1] < 2.0)
+    be = UserBlackboxBackend(blackbox=bb, elapsed_time_attr="et", max_resource_attr="epochs", support_checkpointing=True,
+                             simulator_config=SimulatorConfig(delay_on_trial_result=0.125, delay_complete_after_final_report=0.125,
+                                                              delay_complete_after_stop=0.125, delay_start=0.125, delay_stop=0.125))
+    be.set_path(results_root=os.environ["SYNETUNE_FOLDER"], tuner_name="c10d")
+    tk = be.time_keeper
+    tk.start_of_time()
+    for c in range(3):
+        be.start_trial({"c": c, "epochs": F})
+    tk.advance(1.5)
+    st, res = be.fetch_status_results([0, 1, 2])
+    first = [(tid, r["epoch"]) for tid, r in res if tid == 0]
+    sym.check(first == [(0, 1)], prop + ".levels-not-consecutive", "trial 0 after 1.5 s: %s" % first)
+    seen = {1: [], 2: []}
+    for tid, r in res:
+        if tid != 0:
+            seen[tid].append(r)
+    be.stop_trial(0, result=res[0][1])
+    sym.goal("stopped")
+    tk.advance(100.0)
+    st, res = be.fetch_status_results([1, 2])
+    for tid, r in res:
+        sym.check(tid in (1, 2), prop + ".result-after-stop", "trial %s delivered a result after it was stopped" % tid)
+        seen[tid].append(r)
+    for tid in (1, 2):
+        lv = [r["epoch"] for r in seen[tid]]
+        sym.check(lv == list(range(1, F + 1)), prop + (".levels-not-consecutive" if prop == "C10" else ".delivery-order"),
+                  "trial %d ran to its end; levels delivered: %s" % (tid, lv))
+        for a, b in zip(seen[tid], seen[tid][1:]):
+            sym.check(b[ST_TUNER_TIME] >= a[ST_TUNER_TIME], prop + (".results-out-of-time-order" if prop == "C10" else ".delivery-order"), "trial %d" % tid)
+        for r in seen[tid]:
+            sym.check(r["loss"] == bb.tab[tid][r["epoch"] - 1][0], prop + (".metric-value" if prop == "C10" else ".result-altered"), "trial %d level %d" % (tid, r["epoch"]))
+    sym.goal("end")
+
+
 ASSUME = [
     "blackbox = harness subclass of Blackbox returning symbolic tables (metric in [-5,5], elapsed-time increments in [-2,10]); the pandas/numpy lookup of BlackboxTabular is outside",
     "stub clock: time.time as seen by time_keeper returns arbitrary non-decreasing instants (increment symbolic in [0,5] or fixed 0.25 s); datetime/timedelta replaced by constants",
     "documented monotonicity repair of the elapsed-time column: each value at least 0.01 above its predecessor (recomputed independently in the oracle)",
     "exact real arithmetic: time stamps compared with ==",
+    "C10.c: real clock fully under harness control (moves only between backend calls, by symbolic amounts in [0,1/4]); concrete table and delays",
 ]
+
+
+def heap_obligation(prop, tag, sym_trials=(2,), **kw):
+    return Ob("%s[three-trials,F=3,stop,symbolic-event-order,sym=%s]" % (tag, "+".join(map(str, sym_trials))), "props.c10:h_three_trials",
+              dict(F=3, prop=prop, sym_trials=tuple(sym_trials)),
+              bounds=dict(trials=3, fidelities=3, tables="elapsed-time increments of trial(s) %s symbolic in [0.5,6], the others concrete" % (sym_trials,),
+                          schedule="start x3, poll at 1.5 s, stop trial 0, poll after 100 s"),
+              goals=("stopped", "end"), split=tuple(("s%d" % i, (0, 1)) for i in range(5)), budget_s=1500, stubs=["time.time in time_keeper under harness control", "datetime/timedelta constants"], **kw)
 
 
 def obligations(tier):
@@ -218,6 +362,11 @@ def obligations(tier):
                       bounds=dict(trials=1, fidelities=3, table="symbolic", delays="symbolic in [0,1]", sleeps="30 s"), goals=("resumed-results", "end"), budget_s=1500))
     obs.append(Ob("C10.a[pause-resume,F=3,ckpt=True,pause_at=2,symbolic-clock]", "props.c10:h_pause_resume", dict(F=3, ckpt=True, symbolic_clock=True, pause_at=2),
                   bounds=dict(trials=1, fidelities=3, outside_time="symbolic in [0,5] per call"), goals=("resumed-results", "end"), budget_s=1500))
+    obs.append(Ob("C10.c[outside-time,F=2]", "props.c10:h_outside_time", dict(F=2), bounds=dict(trials=2, fidelities=2, rounds=2, real_time="symbolic in [0,1/4] between any two backend calls (14 gaps)", sleeps="12 s", table="concrete, 10 s per level"),
+                  goals=("result", "end"), budget_s=900, stubs=["time.time in time_keeper under harness control", "datetime/timedelta constants"]))
+    obs.append(heap_obligation("C10", "C10.b"))
+    if not quick:
+        obs.append(heap_obligation("C10", "C10.b", sym_trials=(1, 2), may_be_incomplete=True))
     obs.append(Ob("C10.b[two-trials,F=2,stop]", "props.c10:h_two_trials", dict(F=2, stop_first=True), bounds=dict(trials=2, fidelities=2, polls=3, sleeps="each 0.25 or 12 s", table="trial 0 symbolic, trial 1 concrete"),
                   goals=("stopped", "other-trial-complete", "end"), split=(("sleep0", (0, 1)), ("sleep1", (0, 1)), ("sleep2", (0, 1))), budget_s=1800))
     if not quick:
